@@ -69,6 +69,11 @@ def analyzer_kwargs(cfg, sched, extra=None):
               Kdes=cfg["Kdes"], scheduler=sched)
     if extra:
         kw.update(extra)
+    if kw.pop("scheduler_as_callable", False):
+        # the documented alternative to the name: the scheduler function itself, looked up the
+        # way a user would (current binding of speckit.schedulers.<name>)
+        import speckit.schedulers as S
+        kw["scheduler"] = getattr(S, gen.SCHED_FUNC[sched])
     return kw
 
 
@@ -186,6 +191,8 @@ def run_mixed_shard(pid, params, rec, extra_kinds=None):
                 cfg = dict(cfg, Jdes=int(rng.choice([20, 60, 150])))
                 if sched == "vectorized_ltf":
                     sched = "new_ltf"
+            if extra is None and i % 8 == 0:
+                extra = {"scheduler_as_callable": True}
             run_analyzer(pid, rec, cfg, sched, extra)
         if extra_kinds:
             extra_kinds(rec, cfg, rng, i)
